@@ -99,7 +99,8 @@ CHECKS = {
         # retype of every column; thorough: all 20 kinds wherever they apply)
         dict(prop="C17.enum", harness="schema_pbt", quick=dict(count="enum", workers=8), thorough=dict(count=0, workers=1),
              essential=_ALL_SCHEMAS + ["schema=3.0.0", "file=m.db", "file=p.db", "effective-mutant", "enum"] +
-                       [f + k for f in ("1.x:", "2.x:") for k in ["drop-table", "rename-table", "drop-view", "rename-view", "drop-index", "flip-unique", "drop-column", "rename-column", "change-type"]]),
+                       [f + k for f in ("1.x:", "2.x:") for k in ["drop-table", "rename-table", "drop-view", "rename-view", "drop-index", "flip-unique", "drop-column", "rename-column", "change-type", "add-notnull"]] +
+                       ["add-notnull:key-column"]),
         dict(prop="C17.enumAll", harness="schema_pbt", quick=dict(count=0, workers=1), thorough=dict(count="enum", workers=16),
              essential=_ALL_SCHEMAS + ["schema=3.0.0", "file=m.db", "file=p.db", "effective-mutant", "equivalent-mutant", "enum"]),
         dict(prop="C17.refs", harness="schema_pbt", quick=dict(count="enum", workers=8), thorough=dict(count="enum", workers=8),
